@@ -118,7 +118,8 @@ def build_op(d):
         if not is_unary(d):
             if d["ifm2"] == "scalar":
                 op.ifm2 = fm(1, 1, 1, 0x400000)
-                op.ifm2_scalar = 3
+                # boundary-biased scalar values: 0 and 0.0 are legal scalars (and falsy in Python)
+                op.ifm2_scalar = (0, 3, 0.0, 1.5, -1)[(oh * 7 + ow * 3 + od) % 5]
             else:
                 h2, w2, c2 = d["ifm2"]
                 op.ifm2 = fm(h2, w2, c2, 0x400000)
